@@ -81,9 +81,12 @@ def profile(h=0):
         p.max_time_probes = 30
         p.min_ops, p.max_ops = 3, 7
     if h % 20 == 13:  # many measurements (prefixes of each other, differing in case / trailing blank), many tag keys and values
-        p.meas = ["m0", "m1", "_default", "m", "m00", "M0", "m0 ", "a", "a/b", "None", "k", "x", "1", "measurement", "m1x"]
+        p.meas = ["m0", "m1", "_default", "m", "m00", "M0", "m0 ", "a", "a/b", "None", "k", "x", "1", "measurement", "m1x",
+                  "m*", "m?", "m[01]", "rate[5m]", "rate5", ".*", "m.", "%", "m\\d"]  # names that are patterns in some syntax
         p.extra_tag_keys = [f"key{i}" for i in range(14)]
         p.extra_tag_vals = [f"v{i}" for i in range(25)] + ["12", "1.5", "x" * 300]
+    if h % 10 == 6:  # a few measurement names that are patterns in some syntax, next to names they would match
+        p.meas = ["m0", "m1", "m*", "m?", "m[01]", "rate[5m]", "rate5", "m."]
     if h % 20 == 17:  # instants at and around the epoch (timestamp 0.0, negative timestamps) and year 1900
         p.grid = gen.EPOCH_GRID
     if h % 8 == 5:
